@@ -7,5 +7,5 @@ mkdir -p "$B"
 ( cd ../coq/extract && coqc -Q ../theories Low $( [ -d ../gen ] && echo "-Q ../gen LowGen" ) Extract.v >/dev/null )
 cp ../coq/extract/model.ml ../coq/extract/model.mli driver.ml "$B"/
 cd "$B"
-ocamlfind ocamlopt -O2 -package zarith -linkpkg model.mli model.ml driver.ml -o ../driver 2>/dev/null \
- || ocamlfind ocamlopt -package zarith -linkpkg model.mli model.ml driver.ml -o ../driver
+ocamlfind ocamlopt -package zarith -linkpkg model.mli model.ml driver.ml -o driver.new
+mv -f driver.new ../driver
